@@ -38,13 +38,17 @@ structure St where
   ins : Array Val := #[]
   firstSeen : Std.HashMap ID Int := {}
   labels : List String := []
-  verdict : Option Verdict := none
+  verdict : Option Verdict := none   -- first spec-false (ends the case)
+  differ : Option Verdict := none    -- first model/implementation difference (the case goes on: a spec-false later on wins)
   nq : Nat := 0
   maxBuckets : Nat := 0
 
 def St.hash (s : St) : ID → Nat := fun id => s.table.getD id 0
 
-def St.fail (s : St) (v : Verdict) : St := if s.verdict.isSome then s else { s with verdict := some v }
+def St.fail (s : St) (v : Verdict) : St :=
+  match v with
+  | .differ _ _ => if s.differ.isSome then s else { s with differ := some v }
+  | _ => if s.verdict.isSome then s else { s with verdict := some v }
 
 def St.label (s : St) (l : String) : St := if s.labels.contains l then s else { s with labels := l :: s.labels }
 
@@ -140,9 +144,10 @@ def log2 (n : Nat) : Nat := if n ≤ 1 then 0 else Nat.log2 n
 
 def handle (c : Case) : Verdict :=
   let s := c.recs.foldl stepRec {}
-  match s.verdict with
-  | some v => v
-  | none =>
+  match s.verdict, s.differ with
+  | some v, _ => v
+  | none, some d => d
+  | none, none =>
     let n := s.ins.size
     let sz := if n == 0 then "n0" else if n < 16 then "n<16" else if n < 256 then "n<256" else if n < 4096 then "n<4096" else "n>=4096"
     let grow := if s.maxBuckets > 64 then [s!"doublings{log2 (s.maxBuckets / 64)}"] else []
